@@ -190,7 +190,12 @@ fn run_seq(sc: &Scenario, sid: u64) -> SeqOutcome {
     set_current(Some(sh.clone()));
     let mut viol: Vec<V> = Vec::new();
     let mut obs: Vec<(&'static str, u64)> = Vec::new();
-    let mut builder = QueuingMetricSink::builder();
+    // (three public ways to a builder: they are the same builder)
+    let mut builder = match sid % 3 {
+        0 => QueuingMetricSink::builder(),
+        1 => cadence::QueuingMetricSinkBuilder::new(),
+        _ => cadence::QueuingMetricSinkBuilder::default(),
+    };
     // the order of the builder calls must not matter: alternate it
     let handler_first = sid % 2 == 0;
     if sc.handler && handler_first {
@@ -1196,6 +1201,78 @@ fn mode_compose(r: &mut Runner) {
         let _ = await_log(&sh, |st| st.log.iter().any(|e| matches!(e, Ev::SinkDrop { .. })));
         let _ = await_no_library_thread();
         set_current(None);
+    }
+    // `Clone::clone_from`: a handle re-pointed at another queue is a handle of that queue and no longer one of the old -
+    // the old queue goes on while it has handles left and stops when it has none, the new one gained a handle
+    if r.prop == "C08" || r.prop == "C09" {
+        for drop_target_first in [false, true] {
+            let (sh_a, sh_b) = (Shared::new(false), Shared::new(false));
+            set_current(None);
+            let a = QueuingMetricSink::from(GatedSink { sh: sh_a.clone() });
+            let mut b = Some(QueuingMetricSink::with_capacity(GatedSink { sh: sh_b.clone() }, 8));
+            let mut a2 = a.clone();
+            a2.clone_from(b.as_ref().unwrap()); // a2 now belongs to queue B; queue A has one handle (a), queue B two (b, a2)
+            let mut expect_a: Vec<String> = Vec::new();
+            let mut expect_b: Vec<String> = Vec::new();
+            let m = |q: &str, k: usize| metric_text(&format!("cf{}.{}.n{}", r.sid, q, k), &Out::Ok, 0);
+            if drop_target_first {
+                drop(b.take());
+            } else {
+                drop(a2.clone());
+            }
+            for k in 0..3 {
+                if a.emit(&m("a", k)).is_ok() {
+                    expect_a.push(m("a", k));
+                }
+                if a2.emit(&m("b", k)).is_ok() {
+                    expect_b.push(m("b", k));
+                }
+            }
+            let wa = await_log(&sh_a, |st| st.log.iter().filter(|e| matches!(e, Ev::Exit { .. })).count() >= expect_a.len());
+            let wb = await_log(&sh_b, |st| st.log.iter().filter(|e| matches!(e, Ev::Exit { .. })).count() >= expect_b.len());
+            let got = |sh: &Arc<Shared>| -> Vec<String> { sh.st.lock().unwrap_or_else(|e| e.into_inner()).log.iter().filter_map(|e| if let Ev::Enter { metric, .. } = e { Some(metric.clone()) } else { None }).collect() };
+            let (ga, gb) = (got(&sh_a), got(&sh_b));
+            // last handles go: both wrapped sinks are released
+            drop(a);
+            drop(a2);
+            drop(b.take());
+            let ra = await_log(&sh_a, |st| st.log.iter().any(|e| matches!(e, Ev::SinkDrop { .. })));
+            let rb = await_log(&sh_b, |st| st.log.iter().any(|e| matches!(e, Ev::SinkDrop { .. })));
+            let _ = await_no_library_thread();
+            let mut rep = r.rep();
+            rep.eval();
+            rep.obs("handles_re_pointed_with_clone_from", 1);
+            rep.distinct(&format!("compose|clone_from|{}", drop_target_first));
+            let mut inc = None;
+            let mut report = |props: &[&str], class: &str, detail: String| {
+                for p in props {
+                    if *p == r.prop {
+                        rep.violation(Violation { property: p.to_string(), rule: if class.starts_with("worker") { "R4".into() } else { "R1".into() }, class: class.into(), detail: format!("[compose clone_from, {}] {}", if drop_target_first { "the source handle dropped first" } else { "a clone of the re-pointed handle dropped first" }, detail), replay_args: r.args.to_vec_with(&[]), trace: Json::Null });
+                    }
+                }
+            };
+            for (w, g, e, name) in [(&wa, &ga, &expect_a, "A"), (&wb, &gb, &expect_b, "B")] {
+                match w {
+                    Err(st) if st.is_verdict() => report(&["C08"], "accepted-never-delivered", format!("queue {}: accepted {:?}, delivered {:?}: {}", name, e, g, st.describe())),
+                    Err(_) => inc = Some(format!("clone_from: watchdog on queue {}", name)),
+                    Ok(()) => {
+                        if g != e {
+                            report(&["C08"], "accepted-never-delivered", format!("queue {}: accepted {:?}, delivered {:?}", name, e, g));
+                        }
+                    }
+                }
+            }
+            for (w, name) in [(&ra, "A"), (&rb, "B")] {
+                match w {
+                    Err(st) if st.is_verdict() => report(&["C09"], "worker-or-sink-not-released", format!("queue {}: every handle is gone, the wrapped sink was not released: {}", name, st.describe())),
+                    Err(_) => inc = Some(format!("clone_from: watchdog waiting for the release of queue {}", name)),
+                    Ok(()) => {}
+                }
+            }
+            if let Some(i) = inc {
+                rep.inconclusive(i);
+            }
+        }
     }
     // a queuing sink that is dropped without ever having been given a metric, around a wrapped sink whose destructor
     // panics or blocks: releasing the wrapped sink is the background thread's business - the caller's drop returns at
